@@ -212,6 +212,7 @@ type Exec struct {
 	sample    string
 	facts     map[uint64][]fact
 	cur       *coro
+	race      *raceState
 	deferFrame []*frame
 	lockHook  func(name string, recv Value)
 }
